@@ -133,6 +133,16 @@ func c1RegionCases(r *rng, thorough bool) []*c1case {
 			src := c1Wrap("func f(p float64) {\n\tfmt.Println(p, 1/p)\n}\n\n", "\ti := 0\n\tx := float64(i) / (-0.25)\n\tfmt.Println(x)\n\tf(x)\n")
 			add("float-negzero", src, "-0\n-0 -Inf\nend\n", c1Pred{"-0\n0 +Inf\nend\n", "ok"})
 		}
+		// range-blank-last: rejected while the function is compiled (nil dereference inside yaegi), even if never called
+		{
+			src := c1Wrap("func f1() {\n\tks := make([]string, 0)\n\tfor _, k := range ks {\n\t\t_ = k\n\t\tz := 1\n\t\t_ = 10 / z\n\t}\n}\n\n", "\tfmt.Println(\"start\")\n\tf1()\n")
+			add("range-blank-last", src, "start\nend\n", c1Pred{"", "panic:"})
+		}
+		// map-ok-miss: the value variable keeps its previous content when the key is missing
+		{
+			src := c1Wrap("", fmt.Sprintf("\tm := map[string]int{\"a\": 1}\n\tfor i := 0; i < 2; i++ {\n\t\tv, ok := m[\"zz\"]\n\t\tfmt.Println(v, ok)\n\t\tv = %d\n\t\t_ = v\n\t}\n", a))
+			add("map-ok-miss", src, "0 false\n0 false\nend\n", c1Pred{fmt.Sprintf("0 false\n%d false\nend\n", a), "ok"})
+		}
 		// paren-literal
 		{
 			src := c1Wrap("", "\tb := true\n\ts := \"hello\"\n\tfmt.Println(\"start\")\n\tif (s >= (\"q\")) || b {\n\t\tfmt.Println(\"then\")\n\t}\n")
